@@ -582,6 +582,8 @@ class RawVoltageBackend(object):
         an integer number of blocks will be recorded, so the actual observation length may be shorter than the 
         ``obs_length`` provided.
         """
+        # In double precision: a single-precision duration would keep the product in 24 bits
+        obs_length = float(obs_length)
         return int(obs_length * abs(self.chan_bw) * self.num_antennas * self.num_chans * self.bytes_per_sample / self.block_size)
         
     
@@ -796,6 +798,7 @@ def get_total_obs_num_samples(obs_length=None,
     if length_mode == 'obs_length':
         if obs_length is None:
             raise ValueError("Value not given for 'obs_length'.")
+        obs_length = float(obs_length)
         num_blocks = int(obs_length * chan_bw * num_antennas * num_chans * bytes_per_sample / block_size)
     elif length_mode == 'num_blocks':
         if num_blocks is None:
